@@ -210,6 +210,22 @@ def solver_queries(space, r, part, case):
         return
     if not set(V) <= G:
         return  # already excused above
+    # the interval's OWN queries (signed min / max, solution) are C22's property and partly listed there: an answer of
+    # the solver that only repeats a wrong interval-level query on a sound interval is excused (counted)
+    R_ = vsa(r)
+    si_ok = {"smin": True, "smax": True, "sol": True}
+    if isinstance(R_, StridedInterval) and G:
+        sG = sorted(refsem.sx(v, w) for v in G)
+        try:
+            if refsem.sx(R_.min(signed=True) & mask(w), w) > sG[0]:
+                si_ok["smin"] = False
+            if refsem.sx(R_.max(signed=True) & mask(w), w) < sG[-1]:
+                si_ok["smax"] = False
+            for v in V[:4]:
+                if not R_.solution(v):
+                    si_ok["sol"] = False
+        except Exception:  # noqa: BLE001
+            si_ok = {"smin": False, "smax": False, "sol": False}
     for cls in ("SolverVSA", "SolverHybrid"):
         s = claripy.SolverVSA() if cls == "SolverVSA" else claripy.SolverHybrid()
         kw = {} if cls == "SolverVSA" else {"exact": False}
@@ -233,9 +249,11 @@ def solver_queries(space, r, part, case):
             sV = sorted(refsem.sx(v, w) for v in V)
             part.count("transitions", 2)
             part.count("solver_queries", 2)
-            if slo is not None and refsem.sx(slo & mask(w), w) > sV[0]:
+            if not si_ok["smin"] or not si_ok["smax"]:
+                part.count("excused_interval_query_c22")
+            elif slo is not None and refsem.sx(slo & mask(w), w) > sV[0]:
                 part.fail(f"{cls}:signed-min-excludes", case + "|" + cls, {"expr": show(r), "min": slo, "true_signed_min": sV[0]})
-            if shi is not None and refsem.sx(shi & mask(w), w) < sV[-1]:
+            if si_ok["smin"] and si_ok["smax"] and shi is not None and refsem.sx(shi & mask(w), w) < sV[-1]:
                 part.fail(f"{cls}:signed-max-excludes", case + "|" + cls, {"expr": show(r), "max": shi, "true_signed_max": sV[-1]})
         except ClaripyError:
             part.count("solver_declined")
@@ -248,7 +266,9 @@ def solver_queries(space, r, part, case):
         evs = {v & mask(w) for v in ev}
         if len(ev) < (1 << w) and not set(V) <= evs:
             part.fail(f"{cls}:eval-excludes", case + "|" + cls, {"expr": show(r), "eval": sorted(evs), "values": V})
-        if not all(so):
+        if not all(so) and not si_ok["sol"]:
+            part.count("excused_interval_query_c22")
+        elif not all(so):
             part.fail(f"{cls}:solution-excludes", case + "|" + cls, {"expr": show(r), "values": V[:4], "answers": so})
 
 
